@@ -162,6 +162,45 @@ def binary_searches(R, ctx, rid):
                  (" - 1" if closed else "", "closed" if closed else "half-open", "<=" if rv["bin"] == "Le" else "<",
                   "the last candidate is never examined" if closed else "the loop does not terminate on a single candidate"), "%s:%s" % (fn.file, st["line"]))
     R.floor(rid, "bisection loops", n, 2)
+    # the pivots of the two interpolation searches stay inside [0, last index]: the element examined in the loop is indexed by the
+    # midpoint of the bounds or by `quotient * right` (clock / end <= 1 scaled by the LAST index) — scaled by the length instead, the
+    # pivot is one past the end exactly when the clock sought is the last clock of the list
+    m = 0
+    for path in ("yrs::update::BlockSet::find_index", "yrs::block_store::ClientBlockList::find_index"):
+        fn = Y.fn(path)
+        v = FnView(fn)
+        cfg = fn.cfg()
+        for cs in fn.calls():
+            if not (re.search(r"Index<.*>>::index$", F.strip_generics(cs.name)) and len(cs.args) > 1 and cfg.in_loop(cs.bb)):
+                continue
+            t = simp_deep(v.arg(cs, 1, 14))
+            alts = list(t[1]) if t[0] == "phi" else [t]
+            bad = []
+            for a in alts:
+                a = simp_deep(a)
+                # checked arithmetic: (x op y).0 and a cast around it
+                while isinstance(a, tuple) and a and ((a[0] == "field" and a[1] == "tuple.0") or a[0] in ("cast", "as")) and isinstance(a[-1], tuple):
+                    a = simp_deep(a[-1])
+                if a[0] == "bin" and a[1] == "Div" and simp_deep(a[3])[:2] == ("const", 2):
+                    continue    # midpoint of the bounds
+                if a[0] == "bin" and a[1].startswith("Mul"):
+                    def _uncast(x):
+                        x = simp_deep(x)
+                        while isinstance(x, tuple) and x and x[0] in ("cast", "as") and isinstance(x[-1], tuple):
+                            x = simp_deep(x[-1])
+                        return x
+                    sides = [_uncast(a[2]), _uncast(a[3])]
+                    quo = [x for x in sides if x[0] == "bin" and x[1] == "Div"]
+                    scale = [x for x in sides if x not in quo]
+                    if len(quo) == 1 and len(scale) == 1:
+                        forms = [f.strip() for f in _canon(scale[0]).split(" | ")]
+                        if all(re.fullmatch(r"right|\(mid - 1\)|\((Vec|VecDeque)::len\(.*\) - 1\)", f) for f in forms):
+                            continue   # quotient scaled by the last index
+                bad.append(_canon(a))
+            m += 1
+            R.ob(rid, fn, "pivot-in-range", not bad, "the examined index is a midpoint or a quotient scaled by the last index" if not bad else
+                 "the examined index can be %s — not bounded by the last index of the list" % bad, cs.loc())
+    R.floor(rid, "pivots of the interpolation searches", m, 2)
 
 
 def _any_variant_of_from(Y, src_ty):
